@@ -54,6 +54,12 @@ def _j(x):
     except Exception:
         return repr(x)
 
+# lowest share of noticed perturbations accepted per property (set well below what was measured, see DESIGN 8.7)
+# Measured with 60 perturbations each: C04 .67 C06 .82 C07 .73 C08 1.0 C09 .56 C10 .83 C11 .50 C12 .57 C13 .88 C15 .79 C16 .87 C17 1.0;
+# C01 .15 C02 .18 C03 .22 C05 .16 C14 .03 C18 .05 analyse far more code than their property depends on (a changed opcode
+# does not matter to a checksum ledger), so for those the share is reported but no floor is enforced.
+AUDIT_FLOOR = {'C04': 0.1, 'C06': 0.1, 'C07': 0.1, 'C08': 0.1, 'C09': 0.1, 'C10': 0.1, 'C11': 0.1, 'C12': 0.1, 'C13': 0.1, 'C15': 0.1, 'C16': 0.1, 'C17': 0.1}
+
 def load_known():
     p = os.path.join(HERE, 'known_findings.json')
     if not os.path.exists(p): return []
@@ -88,6 +94,30 @@ def run_property(pid, ff, ff_rel, repo, tier, seed, replay, t_extract):
         tb = traceback.format_exc()
         sys.stderr.write(tb)
         rep.ob('internal', 'rule-engine', False, 'exception in rule engine: %r' % (ex,), detail=tb[-1500:])
+    if tier == 'thorough' and not replay and not any(o['rule'] == 'internal' for o in rep.obligations):
+        # perturbation audit (engine/perturb.py): the rule re-run on one-construct variants of the extracted program
+        try:
+            import perturb
+            n_aud = int(os.environ.get('VERIF_AUDIT_N', '24') or 24)
+            base_keys = {v['key'] for v in rep.violations}
+            def factory(f2):
+                f2._aliases_done = True; f2.alias_renames = facts.alias_renames
+                return Ctx(f2, None, repo, 'quick', seed), Report(pid)
+            saved_stderr = sys.stderr
+            try:
+                sys.stderr = open(os.devnull, 'w')
+                rec = perturb.audit(mod, factory, facts, set(rep.analysed), base_keys, n_aud, seed)
+            finally:
+                sys.stderr = saved_stderr
+            rep.extra['perturbation_audit'] = rec
+            floor = AUDIT_FLOOR.get(pid, 0.0)
+            share = rec['share_noticed']
+            rep.ob('audit', 'share of one-construct perturbations of the analysed functions that the rule notices', share is not None and share >= floor,
+                   'only %s of %d perturbations of the analysed functions change the verdict (floor %.2f): the rule may have become vacuous' % (share, rec['tried'], floor),
+                   detail={'tried': rec['tried'], 'noticed': rec['noticed'], 'floor': floor})
+        except Exception as ex:
+            tb = traceback.format_exc()
+            rep.ob('internal', 'perturbation-audit', False, 'exception in the perturbation audit: %r' % (ex,), detail=tb[-1500:])
     known = [k for k in load_known() if k['property'] == pid]
     known_keys = {k['key']: k for k in known if k.get('status') == 'known'}
     new = []; kf = []
